@@ -16,7 +16,8 @@ Record mobs := mkMobs {
   mo_port_nodes : list N; mo_port_edges : list (N * N);
   mo_port_tokens : list (N * list N);
   mo_name_ids : list (N * list N);
-  mo_avail : list (N * bool)
+  mo_avail : list (N * bool);
+  mo_inst : list N                     (* keys of token_instances *)
 }.
 
 Inductive mres := MOk (o : mobs) | MErr (e : merr).
@@ -49,7 +50,7 @@ Definition mobs_ok (m : mapper) (o : mobs) : bool :=
   && same_set nl_eqb (m_port_tokens m) (mo_port_tokens o)
   && same_set nl_eqb (m_name_ids m) (mo_name_ids o)
   && same_set nb_eqb (m_avail m) (mo_avail o)
-  && same_set N.eqb (map fst (m_inst m)) (map fst (mo_avail o)).
+  && same_set N.eqb (map fst (m_inst m)) (mo_inst o).
 
 Definition merr_eqb (a b : merr) : bool :=
   match a, b with
